@@ -35,10 +35,30 @@ func (g *Graph) DominatingAtoms(v *V) []Atom {
 			if !g.EdgeDominates(v, EdgeRef{From: bv, Label: l}) {
 				continue
 			}
-			out = append(out, bv.Implied(l)...)
+			for _, a := range bv.Implied(l) {
+				out = append(out, a)
+				// a boolean local that names a condition (allEnd := n == len(x); if allEnd):
+				// the facts of that condition hold as well
+				out = append(out, g.ExpandNamed(a)...)
+			}
 		}
 	}
 	return out
+}
+
+// ExpandNamed returns, for an atom that tests a boolean local defined once as
+// a condition over values that do not change, the facts that condition
+// implies (nothing for other atoms).
+func (g *Graph) ExpandNamed(a Atom) []Atom {
+	obj, k, eq, ok := g.flagTest(a)
+	if !ok {
+		return nil
+	}
+	e, truth, isNamed := g.namedCondition(obj, k, eq, false)
+	if !isNamed {
+		return nil
+	}
+	return ImpliedBy(e, truth)
 }
 
 // DominatingEdges returns the branch edges every path to v takes.
@@ -714,6 +734,13 @@ func (p *Program) TabulateFunc(fn *Func, domains map[string][]int64, cb func(env
 		parent: map[string]string{}, groupCs: map[string]map[int64]bool{}}
 	locals := map[types.Object]bool{}
 	for _, v := range g.Vs {
+		if vs, ok := v.AST.(*ast.ValueSpec); ok {
+			for _, n := range vs.Names {
+				if o := fn.Info().ObjectOf(n); o != nil {
+					locals[o] = true
+				}
+			}
+		}
 		if as, ok := v.AST.(*ast.AssignStmt); ok {
 			for _, l := range as.Lhs {
 				if id, ok := l.(*ast.Ident); ok {
@@ -736,6 +763,10 @@ func (p *Program) TabulateFunc(fn *Func, domains map[string][]int64, cb func(env
 			}
 		case *ast.ReturnStmt:
 			for _, r := range s.Results {
+				le.eval(fn, r, subst0)
+			}
+		case *ast.ValueSpec:
+			for _, r := range s.Values {
 				le.eval(fn, r, subst0)
 			}
 		}
@@ -839,6 +870,46 @@ func (p *Program) TabulateFunc(fn *Func, domains map[string][]int64, cb func(env
 					if o := fn.Info().ObjectOf(id); o != nil {
 						subst[o] = lit
 					}
+				}
+			}
+			if vs, ok := cur.AST.(*ast.ValueSpec); ok {
+				// var x = e / var x T (declaration blocks are one vertex per spec)
+				if len(vs.Values) != 0 && len(vs.Values) != len(vs.Names) {
+					return false, "declaration not understood: " + p.Src(vs)
+				}
+				for i, id := range vs.Names {
+					o := fn.Info().ObjectOf(id)
+					if o == nil {
+						continue
+					}
+					if len(vs.Values) == 0 {
+						if b, isB := o.Type().Underlying().(*types.Basic); isB && b.Info()&types.IsBoolean != 0 {
+							subst[o] = FalseExpr
+						} else if isB && b.Info()&types.IsInteger != 0 {
+							subst[o] = &ast.BasicLit{Kind: token.INT, Value: "0"}
+						} else {
+							return false, "declaration of a non-scalar: " + p.Src(vs)
+						}
+						continue
+					}
+					v := le.eval(fn, vs.Values[i], subst)
+					if !v.ok {
+						return false, "value not evaluable: " + p.Src(vs.Values[i])
+					}
+					var lit ast.Expr
+					if v.isBool {
+						if v.b {
+							lit = &ast.BinaryExpr{X: &ast.BasicLit{Kind: token.INT, Value: "0"}, Op: token.EQL, Y: &ast.BasicLit{Kind: token.INT, Value: "0"}}
+						} else {
+							lit = FalseExpr
+						}
+					} else {
+						lit = &ast.BasicLit{Kind: token.INT, Value: strconv.FormatInt(v.n, 10)}
+						if v.n < 0 {
+							lit = &ast.UnaryExpr{Op: token.SUB, X: &ast.BasicLit{Kind: token.INT, Value: strconv.FormatInt(-v.n, 10)}}
+						}
+					}
+					subst[o] = lit
 				}
 			}
 			var next *V
